@@ -166,6 +166,10 @@ pub fn run(a: &Args) -> Report {
         rep.evaluations += 1;
         for c in &cmds {
             let text = c.to_string();
+            if run::skip_run_on_large_db(&eg, &text) {
+                rep.count("runs_skipped_large_db", 1);
+                continue;
+            }
             let before = take(&eg);
             let o = run::run(&mut eg, &text);
             log.push(text.clone());
